@@ -204,7 +204,9 @@ func (g *caseGen) gop() {
 		dts := t0 + int64(k)*step
 		pts := dts
 		if reorder && k%2 == 1 {
-			pts += step
+			// presentation after decoding by one to three frame periods of a 25 Hz
+			// stream, as B-frame reordering produces; never more than the frame step
+			pts += min(step, int64(3600*(1+k%3)))
 		}
 		hdr := byte(0x41)
 		if k%3 == 2 {
